@@ -856,4 +856,18 @@ example :
   simp at hk; subst hk
   decide
 
+/-- a value that `from_python` accepts and `to_python` rejects (validation step 2 of the column) is
+    refused before any statement: attribute assignment, last position of a `set()`, create -/
+example :
+    AtomicSyn [{ cols := [{}, {}] }] (mkSt [[⟨1, [some 7, some 8]⟩]] [inst 0 1 [some 7, some 8]])
+      (.setattr 0 1 1 (.bad2 (some 77))) none ∧
+    (step [{ cols := [{}, {}] }] (mkSt [[⟨1, [some 7, some 8]⟩]] [inst 0 1 [some 7, some 8]])
+      (.setattr 0 1 1 (.bad2 (some 77))) none).2 = some .invalid ∧
+    (step [{ cols := [{}, {}] }] (mkSt [[⟨1, [some 7, some 8]⟩]] [inst 0 1 [some 7, some 8]])
+      (.setattr 0 1 1 (.bad2 (some 77))) none).1.log = [] ∧
+    (step [{ cols := [{}, {}] }] (mkSt [[⟨1, [some 7, some 8]⟩]] [inst 0 1 [some 7, some 8]])
+      (.set 0 1 [(0, .ok (some 1)), (1, .bad2 (some 77))] []) none).2 = some .invalid ∧
+    (step [{ cols := [{}, {}] }] (mkSt [[⟨1, [some 7, some 8]⟩]] [inst 0 1 [some 7, some 8]])
+      (.create 0 false [(0, .ok (some 1)), (1, .bad2 (some 77))] []) none).1.log = [] := by decide
+
 end SqlObjVerif.Fail
